@@ -39,7 +39,7 @@ ASSUMPTIONS = [
     "builds are atomic per-target steps; the taint store is the local cache backend",
 ]
 
-FAMILIES_QUICK = [("taint", 9, {}), ("nocache", 7, {}), ("disabled", 6, {}), ("taintdis", 7, {}), ("tool", 6, {}),
+FAMILIES_QUICK = [("taint", 9, {}), ("nocache", 7, {}), ("disabled", 6, {}), ("taintdis", 6, {}), ("taintfail", 7, {}), ("tool", 5, {}),
                   ("outless", 5, {"minimal": True}), ("taint", 4, {"minimal": True}), ("nocache", 4, {"minimal": True})]
 FAMILIES_THOROUGH = [(f, n * 15, kw) for f, n, kw in FAMILIES_QUICK]
 
@@ -98,11 +98,28 @@ def run(ctx):
                 ctx.violation("a dependant of a re-executed target whose output changed was not invalidated (stale output after a successful build)",
                               {"kind": "oracle", "oracle": "real clean build", "history": small, "described": H.describe(small), "detail": fails[0]},
                               signature="dependant-not-invalidated-although-output-changed")
+        pending = set()     # targets tainted by a `grog taint` and not yet executed successfully (tracked here, not read from the store)
         for b in H.walk(h, r["real"]):
             o, ws, s = b["obs"], b["ws"], b["step"]
             sel = H.selected(ws, s["patterns"])
             ex = set(o["executed"])
             pre_t = set(o["pre_tainted"])
+            pending |= set(H.matched_targets(ws, b["taints_since"]))
+            pending &= set(ws["targets"])
+            if not (s.get("fail_fast") and not o["ok"]):
+                for l in sorted(pending & set(sel)):
+                    t = ws["targets"][l]
+                    if H.rdeps(ws, l):
+                        continue        # reached only if its dependencies succeeded: not observable from outside
+                    cnt["pending_taint_builds"] = cnt.get("pending_taint_builds", 0) + 1
+                    if l not in ex:
+                        fail("a target that was tainted and has not been executed successfully since was not executed "
+                             "(the taint was consumed by an execution that failed, or by merely looking at it)", h, b,
+                             "taint-lost-without-successful-execution", target=l)
+                        pending.discard(l)
+                    elif t.get("beh", 0) == 0 and all(H.check_holds(c, o["fs"]) for c in t.get("checks", [])) \
+                            and all(o["fs"].get(H.out_path(t, op)) is not None for op in H.all_outs(t)):
+                        pending.discard(l)
             # `grog taint <patterns>` must have marked every target the patterns select
             for l in H.matched_targets(ws, b["taints_since"]):
                 if l not in pre_t and l in ws["targets"]:
